@@ -43,6 +43,7 @@ def run(ctx):
     r6(ctx, lib)
     r7(ctx, lib)
     r8(ctx, lib)
+    r8b(ctx, lib)
     r9(ctx, lib)
     r10(ctx, lib)
     from .common import run_mandatory
@@ -208,10 +209,12 @@ def r34(ctx, lib):
             ct = result_tests(mc, cp)
             err_region = reachable_state(mc, 0, ct, 'err') if ct else set()
             ok_region = reachable_state(mc, 0, ct, 'ok') if ct else set()
-            rms = mc.calls(r'FsCommand::remove$|^std::fs::remove_file$')
-            src_rm = [r for r in rms if backslice(mc, [r.args[0]]).params == {1}]
-            tgt_rm = [r for r in rms if backslice(mc, [r.args[0]]).params == {2}]
-            other = [r for r in rms if r not in src_rm and r not in tgt_rm]
+            from .common import remove_sites
+            sites = remove_sites(lib, mc)
+            rms = [r for r, _ in sites]
+            src_rm = [r for r, ps in sites if ps == {1}]
+            tgt_rm = [r for r, ps in sites if ps == {2}]
+            other = [r for r, ps in sites if ps != {1} and ps != {2}]
             ctx.check(len(src_rm) == 1 and not other, 'C05.R3', mc.path + '|single-remove', (rms[0].where() if rms else mc.where()), 'exactly one remove of the source (plus %d clean-up remove(s) of the target)' % len(tgt_rm),
                       '%d removes of the source, %d of something else' % (len(src_rm), len(other)))
             if src_rm:
@@ -240,6 +243,22 @@ def r34(ctx, lib):
                 rv = return_variants_state(mc, r.bb, ct, 'err') if ct else set()
                 ctx.check(only_err and 'Ok' not in rv, 'C05.R3', mc.path + '|target-cleanup', r.where(), 'the target is removed only after the copy failed, and the error is returned',
                           'the target of the move can be removed %s' % ('on the success path of the copy' if not only_err else 'and the failure is then reported as success'))
+            # pairs of failures: when the clean-up of the target fails too, an incomplete (or second, complete) file stays under DIR - the user is told
+            quiet = []
+            for r in tgt_rm:
+                if r.matches(r'FsCommand::remove$|^std::fs::remove_file$'):
+                    xs = [(mc, r)]
+                else:
+                    hb = lib.body(r.path)
+                    xs = [(hb, k) for k in hb.calls(r'FsCommand::remove$|^std::fs::remove_file$')] if hb is not None else []
+                for x, k in xs:
+                    cat, det = err_handling(x, k)
+                    if cat in ('DISCARDED', 'IGNORED', 'DROPPED'):
+                        quiet.append(k)
+            ctx.check(bool(tgt_rm) and not quiet, 'C05.R3', mc.path + '|failed-cleanup-reported', (quiet[0].where() if quiet else (tgt_rm[0].where() if tgt_rm else mc.where())),
+                      'when removing the copy fails as well, that is part of the reported error',
+                      'the result of removing the incomplete copy is dropped (`let _ = fs::remove_file(target)`): when the copy fails and its removal fails too, a partial file stays under DIR at the place '
+                      'of the moved one and nothing is said about it - the sibling safe_remove logs "Failed to undo move ..." in the same situation; later runs refuse the file with "Target already exists"')
             sl = backslice(mc, [mk.args[0]])
             ctx.check(2 in sl.params and 1 not in sl.params, 'C05.R3', mc.path + '|mkdirs-target', mk.where(), 'mkdirs(target.parent())', 'mkdirs not applied to the target\'s parent')
     mr = ctx.need_body('C05.R4', 'dedupe::FsCommand::move_rename')
@@ -492,18 +511,34 @@ def r8(ctx, lib):
     ctx.check(rnd, rule, b.path + '|random', b.where(), 'random suffix', 'no random component in the temporary name')
     # the name stays within NAME_MAX: the file-name part is clamped before the suffix is appended
     from ..analysis import slice_const_values
-    bound = None
-    for c in sl.calls:
-        if c.matches(r'^std::cmp::min$|Ord::min$|::truncate$') or (c.matches(r'Iterator::take$') and not backslice(b, [c.args[0]]).has_call(r'rand::|uuid::')):
-            for v in slice_const_values(lib, backslice(b, c.args)):
-                k = const_int({'k': {'v': v}}) if v else None
-                if k is not None and 16 < k < 256:
-                    bound = k if bound is None else min(bound, k)
+    clamps = [c for c in sl.calls if c.matches(r'^std::cmp::min$|Ord::min$|::truncate$') or (c.matches(r'Iterator::take$') and not backslice(b, [c.args[0]]).has_call(r'rand::|uuid::'))]
+    # the clamp is the constant handed to min() itself; only when there is none, a constant its operands are computed from
+    direct = [k for c in clamps for k in [const_int(a) for a in c.args] if k is not None and 16 < k < 256]
+    indirect = [k for c in clamps for v in slice_const_values(lib, backslice(b, c.args)) for k in [const_int({'k': {'v': v}}) if v else None] if k is not None and 16 < k < 256]
+    cands = direct or indirect
+    bound = min(cands) if cands else None
     take = [const_int(c.args[1]) for c in sl.calls if c.matches(r'Iterator::take$') and len(c.args) > 1 and const_int(c.args[1]) is not None and const_int(c.args[1]) <= 64]
     suffix = (take[0] if take else 24) + 1
     ctx.check(bound is not None and bound + suffix <= 255, rule, b.path + '|bounded-name', b.where(), 'file-name part clamped to %s bytes + %d bytes of suffix <= 255 (NAME_MAX)' % (bound, suffix),
               'the temporary name is the whole file name plus a %d byte suffix: for names longer than %d bytes it exceeds NAME_MAX, the rename in safe_remove fails with ENAMETOOLONG, and '
               '`link` can never process such a file although --dry-run announces it' % (suffix, 255 - suffix))
+
+
+def r8b(ctx, lib):
+    """the whole temporary PATH stays within PATH_MAX too: the 25 bytes are added to the path as well"""
+    rule = 'C05.R8'
+    b = lib.body('dedupe::FsCommand::temp_file')
+    if b is None:
+        return
+    from ..analysis import slice_const_values
+    sl = backslice(b, [0])
+    vals = [str(v) for v in slice_const_values(lib, sl)] + [str(k) for k in sl.consts]
+    pmax = any(re.search(r'PATH_MAX|\b409[56]\b', v) for v in vals)
+    # the length of the whole path enters the clamp: a len() of something that derives from the parameter but not from file_name()
+    whole = [c for c in sl.calls if c.matches(r'::len$') and 1 in backslice(b, [c.args[0]]).params and not backslice(b, [c.args[0]]).has_call(r'path::Path::file_name$')]
+    ctx.check(pmax and bool(whole), rule, b.path + '|bounded-path', b.where(), 'the kept part of the name also shrinks so that the whole temporary path stays within PATH_MAX',
+              'only the NAME of the temporary sibling is bounded: the 25 bytes of the suffix are added to the length of the whole PATH as well, so for a file whose path is longer than PATH_MAX - 26 '
+              '(4070 bytes; legal, scanned, reported, and `remove` unlinks it) the rename in safe_remove fails with ENAMETOOLONG: `link` / `link --soft` can never process the file although --dry-run lists it')
 
 
 WRAPPERS = {
